@@ -33,6 +33,7 @@ import ODataVerif.Spec.RelSem
 import ODataVerif.Spec.RelElab
 import ODataVerif.Model.OrmRel
 import ODataVerif.Spec.OrmRelSem
+import ODataVerif.Spec.LitSpell
 import ODataVerif.Spec.NumFn
 import ODataVerif.Spec.DateSem
 import ODataVerif.Spec.DateFilters
@@ -245,6 +246,33 @@ def withDateF (w : String) (f : Spec.DateF → String) : String :=
   | some (d, []) => f d
   | _ => "bad-datef"
 
+
+/-! ### Spec/LitSpell: spellings from meanings (the harness feeds the texts to the real lexer / py_val) -/
+namespace LitSpellWire
+open OQ.LitSpell
+def nats (s : String) (sep : Char) : Option (List Nat) := (s.splitOn (String.singleton sep)).mapM (·.toNat?)
+def comp (s : String) : Option (Option (Nat × Nat)) :=
+  if s == "-" then some none else match nats s ':' with
+    | some [w, n] => some (some (w, n))
+    | _ => none
+def secs (s : String) : Option Secs :=
+  if s == "-" then some .none else match s.splitOn ":" with
+    | [n] => n.toNat?.map .whole
+    | [n, ds] => (match n.toNat?, nats ds '.' with | some k, some fs => some (.frac k fs) | _, _ => none)
+    | _ => none
+def dsecs (s : String) : Option DSecs :=
+  if s == "-" then some .none else match s.splitOn ":" with
+    | [w, n] => (match w.toNat?, n.toNat? with | some a, some b => some (.whole a b) | _, _ => none)
+    | [w, n, ds] => (match w.toNat?, n.toNat?, nats ds '.' with | some a, some b, some fs => some (.frac a b fs) | _, _, _ => none)
+    | _ => none
+def off (s : String) : Option Off :=
+  if s == "-" then some .naive else if s == "Z" then some (.z true) else if s == "z" then some (.z false)
+  else match s.splitOn ":" with
+    | [sg, h, m] => (match h.toNat?, m.toNat? with | some a, some b => some (.hm (sg == "m") a b) | _, _ => none)
+    | _ => none
+def sign (s : String) : Sign := if s == "m" then .minus else if s == "p" then .plus else .none
+end LitSpellWire
+
 def handle (args : List String) : String :=
   match args with
   | ["ping"] => "pong"
@@ -386,6 +414,34 @@ def handle (args : List String) : String :=
                   | some q => encV3 (Spec.numFnHolds f k nv (some q))
                   | none => "bad-cell"))
        | _, _, _ => "bad-arg")
+  | "litspell" :: kind :: args =>
+      let out (t : List Char) : String := hexOfString (String.ofList t)
+      (match kind, args with
+       | "int", [w, n] => (match w.toNat?, n.toNat? with | some a, some b => out (OQ.LitSpell.pad a b) | _, _ => "bad-arg")
+       | "date", [y, m, d] => (match y.toNat?, m.toNat?, d.toNat? with | some a, some b, some c => out (OQ.LitSpell.isoDate a b c) | _, _, _ => "bad-arg")
+       | "time", [h, mi, sc] => (match h.toNat?, mi.toNat?, LitSpellWire.secs sc with
+                                 | some a, some b, some c => out (OQ.LitSpell.clockText a b c) | _, _, _ => "bad-arg")
+       | "datetime", [y, m, d, sep, h, mi, sc, o] =>
+           (match y.toNat?, m.toNat?, d.toNat?, h.toNat?, mi.toNat?, LitSpellWire.secs sc, LitSpellWire.off o with
+            | some a, some b, some c, some e, some f, some g, some k =>
+                out (OQ.LitSpell.dateTimeText a b c (if sep == "t" then 't' else 'T') e f g k)
+            | _, _, _, _, _, _, _ => "bad-arg")
+       | "duration", [sg, y, mo, d, tp] =>
+           (match LitSpellWire.comp y, LitSpellWire.comp mo, LitSpellWire.comp d with
+            | some a, some b, some c =>
+                if tp == "-" then out (OQ.LitSpell.durText (LitSpellWire.sign sg) a b c none) ++ " " ++ toString (OQ.LitSpell.durMicros (LitSpellWire.sign sg) a b c none)
+                else (match tp.splitOn ";" with
+                      | [h, mi, s] => (match LitSpellWire.comp h, LitSpellWire.comp mi, LitSpellWire.dsecs s with
+                                       | some e, some f, some g =>
+                                           out (OQ.LitSpell.durText (LitSpellWire.sign sg) a b c (some (e, f, g))) ++ " " ++
+                                             toString (OQ.LitSpell.durMicros (LitSpellWire.sign sg) a b c (some (e, f, g)))
+                                       | _, _, _ => "bad-arg")
+                      | _ => "bad-arg")
+            | _, _, _ => "bad-arg")
+       | "guid", [n, mask] => (match n.toNat?, mask.toNat? with
+                               | some a, some m => out (OQ.LitSpell.guidText (fun i => m.testBit i) a) | _, _ => "bad-arg")
+       | "quote", [h] => (match stringOfHex h with | some t => out (OQ.LitSpell.quoteText t.toList) | none => "bad-arg")
+       | _, _ => "bad-arg")
   | ["datecmp", cmp, lit, cells] =>
       -- Spec.DateSem: `col cmp lit` per cell
       (match decCmpK cmp, Spec.DateV.ofIso lit.toList with
